@@ -2222,6 +2222,17 @@ fn generate_constraints_stmt(
                     })
                 }
             }
+            // `Color.Red = ..` or `Person.greet = ..`: the member names a declaration, not a field
+            if let ExprKind::MemberAccess(_, member) = &*lhs.kind
+                && let Some(decl) = ctx.resolution_map.get(&member.id)
+                && !matches!(decl, Declaration::StructField { .. })
+            {
+                ctx.errors.push(Error::GenericWithNode {
+                    msg: "Can't assign to this. Only variables, struct fields and indexed elements can be assigned to".to_string(),
+                    node: lhs.node(),
+                });
+                return;
+            }
             match assign_op {
                 AssignOperator::Equal => {
                     if let ExprKind::IndexAccess(accessed, index) = &*lhs.kind {
